@@ -340,7 +340,7 @@ func (x *c3Ctx) fetchCase(fixed *c3FetchSpec) {
 		case cerr != nil:
 			h.Fail("fetch-client-error:"+c3ErrClass(cerr), "the client failed to decode the FETCH responses: "+cerr.Error(), desc)
 		default:
-			if d := c3Diff(want, obs); d != "" {
+			if d := c3Diff(want, c3TextNilIsZero(obs)); d != "" {
 				desc["want"] = want
 				desc["got"] = obs
 				h.Fail("fetch-mismatch:"+d, "delivered FETCH data differs from the supplied data at "+d, desc)
@@ -1369,6 +1369,9 @@ func c3Corpus(x *c3Ctx) {
 	one := func(items ...*c3Item) *c3FetchSpec {
 		return &c3FetchSpec{Req: c3Set{{1, 0}}, BodyMode: 2, Msgs: []c3Msgd{{Seq: 1, Items: items}}}
 	}
+	body1 := func(items ...*c3Item) *c3FetchSpec {
+		return &c3FetchSpec{Req: c3Set{{1, 0}}, BodyMode: 1, Msgs: []c3Msgd{{Seq: 1, Items: items}}}
+	}
 	env := func(subject, name string) *c3Env {
 		return &c3Env{Date: c3TimeOf(time.Time{}), Subject: subject, From: &[]c3Addr{{name, "a", "b"}}, MsgID: "i@d"}
 	}
@@ -1387,6 +1390,17 @@ func c3Corpus(x *c3Ctx) {
 		one(&c3Item{Kind: "body", BS: sp("=?utf-8?q?desc?=", c3KV{"name", "=?utf-8?q?file?="})}),
 		one(&c3Item{Kind: "body", BS: sp("é =?utf-8?q?x?=", c3KV{"name", strings.Repeat("=?", 40)})}),
 		one(&c3Item{Kind: "env", Env: nil}),
+		// a parameter whose name is the empty string (body and disposition parameters)
+		one(&c3Item{Kind: "body", BS: sp("d", c3KV{"", "x"})}),
+		one(&c3Item{Kind: "body", BS: sp("d", c3KV{"", "x"}, c3KV{"a", ""})}),
+		one(&c3Item{Kind: "body", BS: &c3BS{Type: "application", Subtype: "pdf", Enc: "base64", Size: 1,
+			Ext: &c3Ext{Disp: &c3Disp{Value: "attachment", Params: &[]c3KV{{"", ""}}}}}}),
+		// a text part whose Text is nil, as BODYSTRUCTURE and as BODY
+		one(&c3Item{Kind: "body", BS: &c3BS{Type: "text", Subtype: "plain", Enc: "7bit", Size: 10, Ext: &c3Ext{}}}),
+		one(&c3Item{Kind: "body", BS: &c3BS{Type: "TEXT", Subtype: "html", Size: 0, Ext: &c3Ext{Lang: &[]string{"en"}, Loc: "loc"}}}),
+		body1(&c3Item{Kind: "body", BS: &c3BS{Type: "text", Subtype: "plain", Enc: "7bit", Size: 10}}),
+		one(&c3Item{Kind: "body", BS: &c3BS{Multi: true, Subtype: "mixed", Ext: &c3Ext{}, Children: []*c3BS{
+			{Type: "text", Subtype: "plain", Size: 3, Ext: &c3Ext{}}, {Type: "image", Subtype: "png", Size: 4, Ext: &c3Ext{}}}}}),
 		one(&c3Item{Kind: "flags", Flags: []string{`\Seen`}}, &c3Item{Kind: "section", Sec: &c3Section{}, Data: bytes.Repeat([]byte("x"), 4097)},
 			&c3Item{Kind: "section", Sec: &c3Section{Spec: "HEADER"}, Data: []byte{}}, &c3Item{Kind: "binary", Part: []int{1, 2}, Data: []byte("\x00\xff\r\n")}),
 	}
